@@ -7,7 +7,10 @@
    attributed to an honest party was broadcast by it (C03_integrity), and any two honest parties that are handed a
    commitment / key from one sender are handed the same one (reliable broadcast: Props/C02.v C02_agreement, C03_at_most_once).
    Nothing else is assumed about order, duplication, withholding, malformed or out-of-phase messages, nor about what
-   Byzantine parties send.  SHA-256 is an arbitrary function H; "commitment matches" is H pk = c. *)
+   Byzantine parties send.  The model has NO state that survives a key generation: a run starts from DKG.init (Init re-creates
+   the stores) and its result is a function of the events of that run alone; the instance-reuse family of the check (the same
+   TBLS / TPS objects through two and three consecutive Init + KeyGen runs, each judged and replayed like a run on fresh objects)
+   ties that modelling decision to the code.  SHA-256 is an arbitrary function H; "commitment matches" is H pk = c. *)
 From Coq Require Import List ZArith.
 Require Import TSS.Base.Base TSS.Alg.DKG TSS.Alg.DKGSystem TSS.Corr.DKGCorr.
 From mathcomp Require Import all_ssreflect all_algebra.
